@@ -151,6 +151,24 @@ def r3_temp_names(ctx):
                       "%s builds the temp path by replacing the destination's file name (with_file_name / set_file_name) with a name that does not contain it: "
                       "every entry stored in the same directory writes through ONE temp file, so concurrent puts of different keys truncate and rename each "
                       "other's data (a get returns another key's bytes, a put fails with ENOENT)" % ctx._stable(b.id), r.loc())
+        # ... and to its destination's DIRECTORY: `<staging dir>.join(dest.file_name())` gives every destination with that last component -
+        # keys that differ in an inner field (product, region, CDN path) - one shared temp file
+        if sl_all is not None:
+            flat = []
+            for x in sl_all.calls:
+                if not re.search(r"Path::join$|PathBuf::push$", x.name) or len(x.args) < 2 or op_local(x.args[1]) is None or op_local(x.args[0]) is None:
+                    continue
+                s_arg = Slice(b, [op_local(x.args[1])], transparent=True)
+                if not any(re.search(r"Path::(file_name|file_stem)$", y.name) for y in s_arg.calls):
+                    continue
+                s_base = Slice(b, [op_local(x.args[0])], transparent=True)
+                same_dir = any(re.search(r"Path::parent$", y.name) for y in s_base.calls) and bool(s_base.locals & s_arg.locals - {op_local(x.args[0]), op_local(x.args[1])})
+                if not same_dir:
+                    flat.append(x)
+            ctx.check(not flat, rule, [b.id, "temp-name-keeps-destination-directory"], "the temp file lives in (or is named after) its destination's whole path",
+                      "%s stages its temp file as <another directory>/<last component of the destination>: destinations in different directories whose last "
+                      "component is equal (keys that differ only in an inner field) write through ONE temp file, so concurrent puts rename each other's bytes "
+                      "into the wrong entry or fail with ENOENT" % ctx._stable(b.id), flat[0].loc() if flat else r.loc())
         shared, why = shared_access(prog, b)
         if not shared:
             ctx.ok(rule, [b.id, "exclusive"], "routine runs under exclusive access (%s)" % why, r.loc(), sample={"routine": b.id, "access": why})
